@@ -17,6 +17,10 @@ pub const HC_LAUNCHER_PARK: u64 = 5;
 pub const HC_JOB_DONE: u64 = 6;
 /// arg2 = 1: the calls that follow are harness set-up, not libpathrs; 0: end
 pub const HC_HARNESS: u64 = 7;
+/// arg1 = descriptor number; arg2 = 1: the supervisor puts a decoy file at that
+/// number in *its own* (the thread-group leader's) descriptor table, 0: removes it.
+/// Used by callers that run with a private descriptor table (C09).
+pub const HC_PLANT: u64 = 8;
 
 #[repr(C)]
 #[derive(Clone, Copy, Default, Debug)]
